@@ -656,6 +656,11 @@ pub fn run(ctx: &Ctx) -> Outcome {
             ),
         }
     }
+    // a refused oversize frame leaves nothing behind: after the refusal the transport is flushed, a small valid frame is
+    // sent and the transport is closed (what the connection engine does when it stops); everything on the wire must be
+    // complete, valid frames - none of them a piece of the refused performative
+    let n_refused = refused_leaves_nothing(&mut out);
+    out.set("refused_oversize_frames_followed_by_flush", n_refused);
     // write-side chunking: bytes written are independent of how much the socket accepts per write
     let wcases: Vec<(Item, usize)> = cases.iter().filter(|(i, _)| matches!(i, Item::Transfer { payload_len, .. } if *payload_len % 97 == 0) || matches!(i, Item::Perf { mask: u64::MAX, channel: 1, .. })).cloned().collect();
     let wres = par_map(&wcases, ctx.threads, |_, (item, m)| {
@@ -950,4 +955,86 @@ fn big_state_stage(ctx: &Ctx, out: &mut Outcome) -> (u64, u64, u64) {
         }
     }
     (cases.len() as u64, refused, written)
+}
+
+
+/// oversize non-transfer performatives of several kinds (a long description / a large properties map) at m = 512, 600
+fn refused_leaves_nothing(out: &mut Outcome) -> u64 {
+    use fe2o3_amqp_types::definitions::{AmqpError, Error as AmqpErr, Handle};
+    let mut n = 0u64;
+    for m in [512usize, 600] {
+        for kind in ["open", "attach", "detach", "end", "close", "disposition"] {
+            for extra in [0usize, 1, 200] {
+                let long = "x".repeat(m + extra);
+                let err = || Some(AmqpErr::new(AmqpError::InternalError, Some(long.clone()), None));
+                let body = match kind {
+                    "open" => {
+                        let (mut o, _, _) = typed::gen_open(0, false);
+                        let mut props = serde_amqp::primitives::OrderedMap::new();
+                        props.insert(serde_amqp::primitives::Symbol::from("k"), serde_amqp::Value::String(long.clone()));
+                        o.properties = Some(props);
+                        FrameBody::Open(o)
+                    }
+                    "attach" => {
+                        let (mut a, _, _) = typed::gen_attach(0, false);
+                        let mut props = serde_amqp::primitives::OrderedMap::new();
+                        props.insert(serde_amqp::primitives::Symbol::from("k"), serde_amqp::Value::String(long.clone()));
+                        a.properties = Some(props);
+                        FrameBody::Attach(a)
+                    }
+                    "detach" => FrameBody::Detach(Detach { handle: Handle(1), closed: true, error: err() }),
+                    "end" => FrameBody::End(End { error: err() }),
+                    "close" => FrameBody::Close(Close { error: err() }),
+                    _ => {
+                        let (mut d, _, _) = typed::gen_disposition(0, false);
+                        d.state = Some(fe2o3_amqp_types::messaging::DeliveryState::Rejected(fe2o3_amqp_types::messaging::Rejected { error: err() }));
+                        FrameBody::Disposition(d)
+                    }
+                };
+                n += 1;
+                let r = catch(|| {
+                    let r = rt();
+                    r.block_on(async {
+                        let (pipe, a, _b) = Pipe::new();
+                        let mut t: Transport<_, Frame> = Transport::bind(a, m, None);
+                        let first = t.send(Frame::new(1u16, body)).await.is_ok();
+                        let _ = t.flush().await;
+                        let second = t.send(Frame::new(0u16, FrameBody::End(End { error: None }))).await.is_ok();
+                        let _ = t.flush().await;
+                        let _ = t.close().await;
+                        (first, second, pipe.take_bytes(1))
+                    })
+                });
+                let what = format!("{kind} of more than {} bytes at max-frame-size {m}", m + extra);
+                match r {
+                    Err(p) => out.violation("panic write (oversize non-transfer)".to_string(), format!("{what}: {p}"), json!({"kind": "refused", "perf": kind, "m": m, "extra": extra})),
+                    Ok((first, second, bytes)) => {
+                        let ok = match refamqp::parse_frames(&bytes) {
+                            Ok((frames, used)) => {
+                                used == bytes.len()
+                                    && frames.iter().all(|f| f.size as usize <= m && refamqp::split_body(&f.body).map(|b| b.map(|(p, _)| refamqp::validate_composite(&p).is_ok()).unwrap_or(true)).unwrap_or(false))
+                                    // the refused performative is not on the wire: at most the small end frame
+                                    && (first || frames.len() <= 1)
+                            }
+                            Err(_) => false,
+                        };
+                        if !ok {
+                            out.violation(
+                                if first { "oversized-non-transfer chopped".to_string() } else { "refused-frame-left-bytes-behind".to_string() },
+                                format!(
+                                    "{what}: send() {}; after a flush, a small end frame (send {}) and close() the wire carries {} bytes that are not a sequence of complete valid frames <= {m}: {}",
+                                    if first { "was accepted" } else { "was refused with an error" },
+                                    if second { "ok" } else { "failed" },
+                                    bytes.len(),
+                                    hex(&bytes)
+                                ),
+                                json!({"kind": "refused", "perf": kind, "m": m, "extra": extra}),
+                            );
+                        }
+                    }
+                }
+            }
+        }
+    }
+    n
 }
